@@ -1,6 +1,7 @@
 (* C12: declared shape/dtype/chunks are truthful; written blocks match their chunk shape. *)
 From CubedV Require Import Model.Util Model.Keys Model.Geometry Model.OpsKF Model.ShapeSem Proofs.GeometryProofs Proofs.OpsKFProofs Proofs.ShapeSemProofs.
 From Coq Require Import Permutation.
+From CubedV Require Import Model.Regular Proofs.RegularProofs.
 
 Theorem C12_upcast_never_narrows : forall d, itemsize d <= itemsize (upcast d).
 Proof. exact upcast_never_narrows. Qed.
@@ -26,3 +27,56 @@ Theorem C12_pr_groups_inside : forall k nb bi, 0 < k -> bi < pr_numblocks k nb -
   length (pr_group k nb bi) <= k.
 Proof. exact (pr_groups_inside). Qed.
 Print Assumptions C12_pr_groups_inside.
+
+(* Regular: the gate between declared chunks and the stored regular grid (_check_regular_chunks, to_chunksize) *)
+
+Theorem C12_reg_check_regular1_spec : forall c, c <> [] ->
+  (check_regular1 c = true <-> exists a k r, c = repeat a k ++ [r] /\ (k = 0 \/ r <= a)).
+Proof. exact (check_regular1_spec). Qed.
+Print Assumptions C12_reg_check_regular1_spec.
+
+Theorem C12_reg_to_chunksize_truthful1 : forall c, wf_axis c -> check_regular1 c = true ->
+  stored_chunks (sumn c) (Nat.max (hd 0 c) 1) = c.
+Proof. exact (to_chunksize_truthful1). Qed.
+Print Assumptions C12_reg_to_chunksize_truthful1.
+
+Theorem C12_reg_to_chunksize_truthful : forall cs sz, Forall wf_axis cs -> to_chunksize cs = Some sz ->
+  length sz = length cs /\
+  forall i, i < length cs -> stored_chunks (sumn (nth i cs [])) (nth i sz 0) = nth i cs [].
+Proof. exact (to_chunksize_truthful). Qed.
+Print Assumptions C12_reg_to_chunksize_truthful.
+
+Theorem C12_reg_regular_passes : forall n c, 0 < c -> check_regular1 (regular n c) = true.
+Proof. exact (regular_passes). Qed.
+Print Assumptions C12_reg_regular_passes.
+
+Theorem C12_reg_larger_last_refused : forall a k r, 0 < k -> a < r ->
+  check_regular1 (repeat a k ++ [r]) = false.
+Proof. exact (larger_last_refused). Qed.
+Print Assumptions C12_reg_larger_last_refused.
+
+Theorem C12_reg_unequal_middle_refused : forall l1 x y l2 z, x <> y ->
+  check_regular1 (l1 ++ x :: y :: l2 ++ [z]) = false.
+Proof. exact (unequal_middle_refused). Qed.
+Print Assumptions C12_reg_unequal_middle_refused.
+
+Theorem C12_reg_refusal_iff : forall cs,
+  to_chunksize cs = None <-> exists c, In c cs /\ check_regular1 c = false.
+Proof. exact (refusal_iff). Qed.
+Print Assumptions C12_reg_refusal_iff.
+
+(* non-vacuity: the model accepts, refuses and stores what the statements talk about *)
+Example C12_reg_ex_accept : to_chunksize [[3;3;1];[4]] = Some [3;4].
+Proof. vm_compute; reflexivity. Qed.
+
+Example C12_reg_ex_refuse_larger_last : to_chunksize [[2;6]] = None.
+Proof. vm_compute; reflexivity. Qed.
+
+Example C12_reg_ex_refuse_unequal_middle : check_regular1 [3;1;3;3] = false.
+Proof. vm_compute; reflexivity. Qed.
+
+Example C12_reg_ex_stored : stored_chunks 7 3 = [3;3;1].
+Proof. vm_compute; reflexivity. Qed.
+
+Example C12_reg_ex_zero_length : to_chunksize [[0]] = Some [1].
+Proof. vm_compute; reflexivity. Qed.
